@@ -82,6 +82,13 @@ T['C06'] = ("""C06 Malformed input becomes diagnostics, never a panic.""", [
     ('C06_to_repopulated_pruned_partial', 'copy_to_repopulated_pruned_partial', 'the same for a populated target: the object an earlier CopyTo produced, whose types (declared and carried by the held values) are then removed'),
     ('C06_to_diag_monotone', 'to_fields_diag_mono', 'diagnostics are never lost along the way'),
     ('C06_from_total_embedded_partial', 'copy_from_total_embedded_partial', 'CopyFrom returns on every payload-typed object also for messages with fields promoted from nullable embedded messages (class emb_ok)'),
+    ('C06_from_missing_reported', 'copy_from_missing_reported', "CopyFrom, EVERY message: each attribute missing from the object is reported as ReadMissing with the field's path (all kinds, oneof branches, custom types, promoted fields)"),
+    ('C06_from_wrong_kind_reported', 'copy_from_wrong_kind_reported', "an attribute of the wrong constructor is reported as ReadConv with the field's path"),
+    ('C06_from_only_read_diags', 'copy_from_only_read_diags', 'nothing else is ever reported: every diagnostic is ReadMissing or ReadConv and carries the path of a field of the message or of a nested message'),
+    ('C06_from_diags_once', 'copy_from_diags_nodup', 'each at most once'),
+    ('C06_from_damage_is_local_partial', 'copy_from_damage_is_local_partial', 'all well-formed attributes are still copied: two objects that agree outside a set K of attribute names are read identically on every field whose attribute is outside K and on every oneof none of whose branches is in K (class: no promoted fields at top level)'),
+    ('C06_from_deletions_local_partial', 'copy_from_deletions_local_partial', 'in particular after deleting attributes: the others are read exactly as from the intact object and every deleted one is reported, once'),
+    ('C06_from_nil_attrs', 'copy_from_nil_attrs_all_reported', 'an object without attribute map reports every field'),
 ])
 
 T['C07'] = ("""C07 Oneof groups stay exclusive in both directions.""", [
